@@ -231,7 +231,16 @@ fn main() {
                 let close = a.final_values().iter().zip(b.final_values()).all(|(x, y)| (x - y).abs() <= 1e-5 * scale);
                 if a.unsatisfied() != b.unsatisfied() && a.iterations() < 30 && b.iterations() < 30 {
                     // verdict change is a violation only if the geometry is also the same
-                    if close {
+                    // a request whose error sits on the 1e-4 threshold itself (a conflict of exactly 2e-4
+                    // split evenly, say) may flip with the last bit: only differences on requests whose
+                    // error is clearly away from the threshold count
+                    let clear_difference = (0..sys.reqs.len()).any(|k| {
+                        a.unsatisfied().contains(&k) != b.unsatisfied().contains(&k) && {
+                            let (res, _) = kcl_ezpz::verif_hooks::residual(sys.reqs[k].constraint(), a.final_values());
+                            (0..kcl_ezpz::verif_hooks::residual_dim(sys.reqs[k].constraint())).all(|j| (res[j].abs() - EPS).abs() > 1e-7)
+                        }
+                    });
+                    if close && clear_difference {
                         out.push(Violation {
                             property: "C01",
                             what: format!("re-expressing the angles (unit / full turns) changes the verdicts: {:?} vs {:?}", a.unsatisfied(), b.unsatisfied()),
